@@ -230,6 +230,53 @@ def rule_scc(prog):
         toward = len(others) == 1 and bool(lv) and all(
             isinstance(x, App) and x.op == 'item' and x.args[1] == w
             for x in lv)
+        # which table each case reads: for a DFS descendant of v (discovered
+        # after v: disc[w] > disc[v]) the value to take is lowlink[w] -- its
+        # discovery number is larger than everything v can reach through it
+        def cases(t, conds):
+            if isinstance(t, App) and t.op == 'ite':
+                return cases(t.args[1], conds + [(t.args[0], True)]) + \
+                    cases(t.args[2], conds + [(t.args[0], False)])
+            return [(t, conds)]
+
+        def later(conds):
+            """True / False / None: is w known to be discovered after v"""
+            for (c, pol) in conds:
+                if isinstance(c, App) and c.op == 'cmp' and \
+                        c.args[0].v in ('>', '<', '>=', '<='):
+                    o, a, b = c.args[0].v, c.args[1], c.args[2]
+                    if not (isinstance(a, App) and a.op == 'item' and
+                            isinstance(b, App) and b.op == 'item' and
+                            a.args[0] == b.args[0] and a.args[0] != L):
+                        continue
+                    if a.args[1] == v and b.args[1] == w:
+                        a, b = b, a
+                        o = {'>': '<', '<': '>', '>=': '<=', '<=': '>='}[o]
+                    if not (a.args[1] == w and b.args[1] == v):
+                        continue
+                    if not pol:
+                        o = {'>': '<=', '<': '>=', '>=': '<', '<=': '>'}[o]
+                    return o in ('>', '>=')
+            return None
+        wrong_table = None
+        for t in others:
+            for (leaf, conds) in cases(t, list(e.pc)):
+                if isinstance(leaf, App) and leaf.op == 'item' and \
+                        leaf.args[1] == w and later(conds) is True and \
+                        leaf.args[0] != L:
+                    wrong_table = leaf
+        if wrong_table is not None:
+            r1.fail(Finding(
+                PROP, 'R-SCC-1', I.where(e.node, f.module), f.short(),
+                'descendant-disc:%s' % ast.unparse(e.node)[:80],
+                'for a successor w discovered after v (a DFS descendant) '
+                'the update `%s` takes %r, the discovery number, instead of '
+                'lowlink[w]: what w reaches above v is not passed on through '
+                'more than one tree edge, so a cycle of three or more nodes '
+                'is cut into pieces' % (ast.unparse(e.node)[:80],
+                                        wrong_table)))
+        else:
+            r1.ok()
         guard = [c for (c, pol) in e.pc if not pol and isinstance(c, App) and
                  c.op == 'in' and c.args[0] == w]
         if guard and closed is None:
@@ -606,6 +653,74 @@ def rule_scc7(prog):
     return r
 
 
+def rule_scc8(prog):
+    """a component emitted outside the post-order step (a shortcut for
+    "obviously trivial" nodes): the node must still be marked discovered,
+    otherwise a later DFS tree that has an edge into it takes it for a new
+    node and emits it again"""
+    r = RuleResult('R-SCC-8', 'a component is emitted only for discovered '
+                   'nodes (no emission shortcut bypasses the bookkeeping)')
+    f = prog.func('graph.compute_SCCs')
+    D = ROLES.get('D')
+    post = post_order_block(f)
+    inside = set(id(n) for st in post for n in ast.walk(st))
+    extra = []
+    from ..flow import _chain
+    for n in ast.walk(f.node):
+        if isinstance(n, ast.Yield) and id(n) not in inside:
+            extra.append(n)
+    r.inst(emissions_outside_post_order_step=len(extra))
+    if not extra:
+        r.ok()
+        return r
+    if D is None or not isinstance(D, Sym):
+        raise Inconclusive('R-SCC-8', 'role disc not established',
+                           f.where())
+    dname = D.name
+    for y in extra:
+        # the simple statement holding the yield, and what precedes it in
+        # the blocks that lead to it
+        holder = None
+        for st in ast.walk(f.node):
+            if isinstance(st, (ast.Expr, ast.Assign)) and \
+                    any(m is y for m in ast.walk(st)):
+                holder = st
+        ch = _chain(f.node, holder) if holder is not None else None
+        if ch is None or y.value is None:
+            raise Inconclusive('R-SCC-8', 'emission `%s` not located' %
+                               ast.unparse(y), f.where())
+        names = [m.id for m in ast.walk(y.value) if isinstance(m, ast.Name)]
+        before = []
+        for (container, fld, block, idx) in ch:
+            before.extend(block[:idx])
+        marked = set()
+        for st in before:
+            for m in ast.walk(st):
+                if isinstance(m, ast.Assign):
+                    for t in m.targets:
+                        for tt in ([t] + list(getattr(t, 'elts', []))):
+                            if isinstance(tt, ast.Subscript) and \
+                                    isinstance(tt.value, ast.Name) and \
+                                    tt.value.id == dname and \
+                                    isinstance(tt.slice, ast.Name):
+                                marked.add(tt.slice.id)
+        missing = [n for n in names if n not in marked]
+        r.inst(emission=ast.unparse(y), line=y.lineno,
+               discovered_before=sorted(marked), not_discovered=missing)
+        if missing:
+            r.fail(Finding(
+                PROP, 'R-SCC-8', '%s:%d' % (f.module.relpath, y.lineno),
+                f.short(), 'emission-shortcut:%s' % ast.unparse(y),
+                'the component `%s` is emitted at line %d outside the '
+                'post-order step without `%s[%s]` having been set: the node '
+                'stays undiscovered, a later DFS tree with an edge into it '
+                'opens it again and it is emitted twice' % (
+                    ast.unparse(y.value), y.lineno, dname, missing[0])))
+        else:
+            r.ok()
+    return r
+
+
 def rule_scc5(prog):
     r = RuleResult('R-SCC-5', 'compute_SCCs does not modify its argument')
     f = prog.func('graph.compute_SCCs')
@@ -625,7 +740,8 @@ def rule_scc5(prog):
 def run(prog, tier, seed):
     T = Attempts()
     results = T.results(T(rule_scc, prog), T(rule_scc6, prog),
-                        T(rule_scc5, prog), T(rule_scc7, prog))
+                        T(rule_scc5, prog), T(rule_scc7, prog),
+                        T(rule_scc8, prog))
     # "for every directed graph G": compute_SCCs reads G through nodes() /
     # next(); a DiGraph whose mutators leave an edge to an unregistered node
     # has nodes that are in no component
@@ -644,6 +760,17 @@ def run(prog, tier, seed):
         return r
     results = results + adopt(T.results(T(_opaque_nodes, prog)), PROP,
                               'nodes are arbitrary hashable objects')
+
+    def _kripke_next(prog):
+        # compute_SCCs(K) of a Kripke structure walks it through Kripke.next
+        from . import c14
+        r = c14.rule_k3(prog, adj)
+        r.findings = [f for f in r.findings if ':next' in f.key]
+        return r
+    if adj:
+        results = results + adopt(T.results(T(_kripke_next, prog)), PROP,
+                                  'the successor function compute_SCCs '
+                                  'reads a Kripke structure through')
     expl = ('PARTIAL. The post-order step of compute_SCCs (the block run '
             'when the successors of the top of the DFS stack are exhausted) '
             'is interpreted abstractly on symbolic bookkeeping state; the '
